@@ -2,12 +2,14 @@ package filesystem
 
 import (
 	"bufio"
+	"crypto"
 	"errors"
 	"hash"
 	"os"
 	"time"
 
 	"github.com/go-git/go-git/v6/plumbing/format/index"
+	githash "github.com/go-git/go-git/v6/plumbing/hash"
 	"github.com/go-git/go-git/v6/storage/filesystem/dotgit"
 	"github.com/go-git/go-git/v6/utils/ioutil"
 	"github.com/go-git/go-git/v6/utils/trace"
@@ -19,6 +21,17 @@ type IndexStorage struct {
 	h        hash.Hash
 	cache    IndexCache
 	skipHash bool
+}
+
+// newHash returns a hasher of the repository's hash width for a single read
+// or write. s.h itself must not be handed to a decoder or encoder: Index and
+// SetIndex can run concurrently on one Storage, and two of them feeding the
+// same hasher corrupt each other's checksum.
+func (s *IndexStorage) newHash() hash.Hash {
+	if s.h != nil && s.h.Size() == crypto.SHA256.Size() {
+		return githash.New(crypto.SHA256)
+	}
+	return githash.New(crypto.SHA1)
 }
 
 // SetIndex writes the index to disk and updates the cache.
@@ -66,7 +79,7 @@ func (s *IndexStorage) writeIndex(idx *index.Index) (err error) {
 		encOpts = append(encOpts, index.WithSkipHash())
 	}
 
-	e := index.NewEncoder(bw, s.h, encOpts...)
+	e := index.NewEncoder(bw, s.newHash(), encOpts...)
 	return e.Encode(idx)
 }
 
@@ -120,7 +133,7 @@ func (s *IndexStorage) Index() (i *index.Index, err error) {
 		decOpts = append(decOpts, index.WithSkipHash())
 	}
 
-	d := index.NewDecoder(f, s.h, decOpts...)
+	d := index.NewDecoder(f, s.newHash(), decOpts...)
 	err = d.Decode(idx)
 	if err != nil {
 		return nil, err
